@@ -311,7 +311,20 @@ static void build_state(void)
             int64_t tgt = 8 + (int64_t)(int32_t)((uint32_t)in_operand.b[o] | ((uint32_t)in_operand.b[o + 1] << 8) |
                                                ((uint32_t)in_operand.b[o + 2] << 16) | ((uint32_t)in_operand.b[o + 3] << 24));
             __CPROVER_assume(tgt < 8 || tgt >= 8 + (int64_t)SPEC_LEN_M(K));
+#ifdef VERIF_TARGET
+            /* the target is pinned (case split over sample targets): with a symbolic target the NEXT opcode byte
+               code[ip] is symbolic for symbolic execution and all 94 handlers are explored again */
+            __CPROVER_assume(tgt == VERIF_TARGET);
+            {   int32_t off = (int32_t)(VERIF_TARGET - 8);
+                m->code[8 + o] = (uint8_t)off; m->code[9 + o] = (uint8_t)(off >> 8);
+                m->code[10 + o] = (uint8_t)(off >> 16); m->code[11 + o] = (uint8_t)(off >> 24); }
+#endif
         }
+#ifdef VERIF_RETIP
+        /* RET resumes the caller at the callee frame's return_ip: pinned to sample positions of the caller's function */
+        fr->return_ip = VERIF_RETIP;
+        if (vm->frame_count >= 2) vm->frames[vm->frame_count - 2].fn_idx = 0;
+#endif
 #ifdef VERIF_LOCALS_MAX
         /* calls push (local_count - arity) fresh locals in a loop: capped (bounded stand-in) */
         __CPROVER_assume(m->functions[0].local_count <= m->functions[0].arity + VERIF_LOCALS_MAX && m->functions[0].arity <= 3);
